@@ -173,7 +173,19 @@ Fixpoint c05_hold (c : scfg) (past : list lev) (h : list round) : bool :=
        else true
      | None => true end) && c05_hold c (past ++ evs) rest
   end.
-Definition mon_C05 (c : scfg) (h : list round) : bool := c05_scan c [] (events c h) && c05_hold c [] h.
+(* C05 / C07: the address is reserved for as long as the ACK says: a table listing taken after an ACK shows the
+   acknowledged address bound (permanently, or at least until the advertised lease time after the ACK was sent) *)
+Definition ack_reserved (r : round) : bool :=
+  negb (r_has_snap r) ||
+  forallb (fun f => match parse_out f with
+                    | Some p =>
+                      if typ p =? 5 then
+                        existsb (fun e => (sn_ip e =? d_yiaddr (po_msg p)) &&
+                                          (sn_perm e || (po_t p + Z.of_N (o_lease (po_opt p)) * 1000000000 <=? sn_until e)%Z)) (r_snap r)
+                      else true
+                    | None => true
+                    end) (r_outs r).
+Definition mon_C05 (c : scfg) (h : list round) : bool := c05_scan c [] (events c h) && c05_hold c [] h && forallb ack_reserved h.
 
 (* C06: envelope of every reply *)
 Definition c06_round (c : scfg) (r : round) : bool :=
@@ -207,6 +219,9 @@ Fixpoint dopts_eqb (a b : list dhcp_opt) : bool :=
   end.
 Definition mon_C07 (c : scfg) (h : list round) : bool :=
   let evs := events c h in
+  forallb ack_reserved h &&
+  (* what goes out on the wire for a hardware address is the option list the configuration prescribes for it *)
+  forallb (fun e => dopts_eqb (opts_tail (le_opts e)) (opts_for c (le_mac e))) evs &&
   forallb (fun e => (o_lease (decode_options (le_opts e)) =? Z.to_N (c_lease c / 1000000000)) &&
                     negb (is_none (o_mask (decode_options (le_opts e)))) &&
                     forallb (fun e2 => negb (bytes_eqb (le_mac e2) (le_mac e)) || dopts_eqb (opts_tail (le_opts e)) (opts_tail (le_opts e2))) evs) evs.
